@@ -50,6 +50,11 @@ class HarnessError(Exception):
     pass
 
 
+class SetupFailed(Exception):
+    """The fault-free prefix of a case already violates the oracle; carries
+    (signature, detail) and is reported as a failure, never swallowed."""
+
+
 # ------------------------------------------------------------ the grids ----
 def flip(b, i, mask):
     b = bytearray(b)
@@ -672,7 +677,12 @@ def ndef_run(product, key, ch, sc, mods):
     clf.arm()
     o = call(tag.authenticate, bytes(key))
     if o != ('ret', True):
-        raise HarnessError('ndef part: authenticate %s' % show(o))
+        sig = sig_exc(o[1]) if o[0] == 'exc' else 'returned-%r-expected-True' \
+            % (o[1],)
+        raise SetupFailed('%s|authenticate|bytes|%s' % (product, sig),
+                          dict(part='ndef', product=product,
+                               tag_key=key.hex(), challenge=ch.hex(),
+                               observed=show(o)))
     clf.arm(mods)
 
     def read():
@@ -701,8 +711,12 @@ def ndef_judge(product, o, region):
 def work_ndef(job, acc):
     product, ch = job['product'], CHALLENGES[job['ch']]
     key = dkeys(F_KEYS)[job['key']]
-    model, clf, o = ndef_run(product, key, ch, job['sys'], [])
     k0 = ('ndef', product, job['key'], job['ch'], job['sys'])
+    try:
+        model, clf, o = ndef_run(product, key, ch, job['sys'], [])
+    except SetupFailed as e:
+        acc.fail(e.args[0], dict(e.args[1], job=job), k0 + (job['slice'],))
+        return
     if o != ('ret', NDEF_MESSAGE):
         acc.fail('%s|ndef|unmodified-read-wrong' % product,
                  dict(part='ndef', job=job, observed=show(o)), k0)
@@ -906,10 +920,10 @@ def work(chunk):
     run.max_samples = 64
     acc = Acc(run)
     for job in chunk:
-        t0 = time.time()
+        t0 = time.process_time()
         PARTS[job['part']][1](job, acc)
         run.count('jobs:' + job['part'])
-        run.count('cpu_s:' + job['part'], time.time() - t0)
+        run.count('cpu_s:' + job['part'], time.process_time() - t0)
     return run.export()
 
 
@@ -946,6 +960,8 @@ def main(tier='quick', seed=0, part=None):
     for k in list(c):
         if k.startswith('cpu_s:'):
             c[k] = round(c[k], 1)
+    run.extra['cpu_s_workers'] = round(sum(
+        v for k, v in c.items() if k.startswith('cpu_s:')), 1)
     run.rule = (
         "one case = one execution of the real nfcpy call(s) against a tag "
         "model: (part, product, tag key, password+type, challenge, block "
@@ -1033,12 +1049,16 @@ def replay(doc):
         job = d['job']
         product, ch = job['product'], CHALLENGES[job['ch']]
         key = dkeys(F_KEYS)[job['key']]
-        model, clf, o = ndef_run(product, key, ch, job['sys'], [])
-        base = {i: (c, r) for i, c, r, _ in clf.trace}
-        model, clf, o = ndef_run(product, key, ch, job['sys'], d['mods'])
-        sig, cls = ndef_judge(product, o, mods_region(d['mods'], base))
-        if sig:
-            acc.fail(sig, dict(observed=show(o)), 'replay')
+        try:
+            model, clf, o = ndef_run(product, key, ch, job['sys'], [])
+            base = {i: (c, r) for i, c, r, _ in clf.trace}
+            mods = d.get('mods', [])
+            model, clf, o = ndef_run(product, key, ch, job['sys'], mods)
+            sig, cls = ndef_judge(product, o, mods_region(mods, base))
+            if sig:
+                acc.fail(sig, dict(observed=show(o)), 'replay')
+        except SetupFailed as e:
+            acc.fail(e.args[0], e.args[1], 'replay')
     elif part == 'auth':
         v, cls = case_auth(d['product'], bytes.fromhex(d['tag_key']),
                            d['ptype'], bytes.fromhex(d['password']),
